@@ -163,6 +163,16 @@ pub fn known_hit(sig: &str) -> bool {
     known
 }
 
+/// load the known-finding signatures of a property without constructing an Engine (fuzz targets)
+pub fn init_known(id: &str, verif_root: &str) {
+    let known: Vec<KnownFinding> = std::fs::read_to_string(format!("{verif_root}/known_findings.json"))
+        .ok()
+        .and_then(|s| serde_json::from_str::<Value>(&s).ok())
+        .and_then(|v| serde_json::from_value(v["findings"].clone()).ok())
+        .unwrap_or_default();
+    let _ = KNOWN_SIGS.set(known.iter().filter(|k| k.property == id && k.status == "known").map(|k| k.signature.clone()).collect());
+}
+
 thread_local! {
     static PANIC_MSG: std::cell::RefCell<Option<String>> = std::cell::RefCell::new(None);
 }
@@ -492,6 +502,47 @@ impl Engine {
             }
         }
         self.parts.push(PartReport { name: part.into(), ctx: total, rule: rule.into(), exhaustive });
+    }
+
+    /// A part executed by an external engine (libFuzzer campaign run by ./check before this binary);
+    /// the counts come from its final statistics.
+    pub fn external_part(&mut self, name: &str, rule: &str, evals: u64, nontrivial: Vec<u64>, sample: Value) {
+        if self.replaying() {
+            return;
+        }
+        let mut ctx = Ctx { counting: true, evals, ..Default::default() };
+        for x in nontrivial {
+            ctx.nontrivial(x);
+        }
+        ctx.samples.push(sample);
+        self.parts.push(PartReport { name: name.into(), ctx, rule: rule.into(), exhaustive: false });
+    }
+    /// picks up the libFuzzer campaign statistics exported by ./check (thorough tier)
+    pub fn fuzz_part_from_env(&mut self, target: &str) {
+        let (Ok(execs), Ok(corpus)) = (std::env::var("VERIF_FUZZ_EXECS"), std::env::var("VERIF_FUZZ_CORPUS")) else { return };
+        let execs: u64 = execs.trim().parse().unwrap_or(0);
+        let mut fps = vec![];
+        let mut names = vec![];
+        if let Ok(rd) = std::fs::read_dir(&corpus) {
+            for e in rd.filter_map(|e| e.ok()) {
+                let n = e.file_name().to_string_lossy().to_string();
+                fps.push(fp(&n));
+                if names.len() < 3 {
+                    let bytes = std::fs::read(e.path()).unwrap_or_default();
+                    names.push(json!({"corpus_file": n, "bytes_hex": hex::encode(&bytes[..bytes.len().min(64)]), "len": bytes.len()}));
+                }
+            }
+        }
+        if execs == 0 {
+            return;
+        }
+        self.external_part(
+            "libfuzzer",
+            &format!("coverage-guided libFuzzer campaign on target {target} (harness/fuzz): bytes are decoded by hand into the same case type and judged by the same oracle; evaluations = executed units reported by libFuzzer, non-trivial = inputs kept in the corpus because they reached new coverage (distinct by content hash)"),
+            execs,
+            fps,
+            json!(names),
+        );
     }
 
     /// Write evidence, print KNOWN-FINDING lines, return the process exit code.
